@@ -1,0 +1,10 @@
+// SPDX-License-Identifier: Apache-2.0
+// Copyright Authors of Cilium
+
+//go:build !verif
+
+package statedb
+
+// verifHook is a no-op unless built with the "verif" tag (verification
+// instrumentation, see verif_on.go).
+func verifHook(string) {}
